@@ -265,9 +265,11 @@ func observe(c *Case, r *mon.Rec, t target, fields modbus.Fields) {
 	}
 	// relevant fields
 	want := map[string]modbus.Field{}
+	mult := map[string]int{} // how often the very same definition was given (a multiset: each occurrence is a field of its own)
 	for _, f := range fields {
 		if fieldgen.Valid(f) && fieldgen.IsCoil(f) == t.coils {
 			want[f.Name] = f
+			mult[f.Name]++
 		}
 	}
 	seen := map[string]int{}
@@ -342,10 +344,10 @@ func observe(c *Case, r *mon.Rec, t target, fields modbus.Fields) {
 	}
 	for name, f := range want {
 		switch n := seen[name]; {
-		case n == 0:
-			V("field-missing", mon.Attrs{}, fmt.Sprintf("field %+v in no request (%d requests)", f, len(reqs)))
-		case n > 1:
-			V("field-duplicated", mon.Attrs{}, fmt.Sprintf("field %+v in %d requests", f, n))
+		case n < mult[name]:
+			V("field-missing", mon.Attrs{}, fmt.Sprintf("field %+v given %d time(s), found %d time(s) in the requests (%d requests)", f, mult[name], n, len(reqs)))
+		case n > mult[name]:
+			V("field-duplicated", mon.Attrs{}, fmt.Sprintf("field %+v given %d time(s), found %d times in the requests", f, mult[name], n))
 		}
 	}
 	// (h) groups that fit the limit must be one request
